@@ -203,6 +203,16 @@ def run(res, tier, rng, table_diffs=()):
                           dict(kind="control", input=t, expected=m.split(" | ")[0], impl=a, model=m))
             break
     from .. import gen2 as _g2
+    bw = _g2.backslash_wide_programs()
+    ba = core.impl(["eval 1000 " + hx(t) for t in bw])
+    bm = core.model(["eval 1000 " + hx(t) for t in bw])
+    for t, a, m in zip(bw, ba, bm):
+        res.seen("B" + t)
+        res.count("backslash-wide")
+        if a != m:
+            res.violation("a backslash before a character that is not one of the four escapes was not kept as written (or crashed the parser)",
+                          dict(kind="control", input=t, expected=m, impl=a, model=m))
+            break
     fl = _g2.float_spelling_programs()
     fa = core.impl(["eval 1000 " + hx(t) for t in fl])
     fm2 = core.model(["eval 1000 " + hx(t) for t in fl])
